@@ -1217,8 +1217,16 @@ def run(out, ctx):
                 "%d modules: sample_from_prior read-back and density on the constrained value; D: LKJCholeskyFactorPrior / "
                 "LKJPrior / LKJCovariancePrior (3 sd priors) on 9 exact rational correlation matrices (n = 2, 3, 4) x 4 eta; "
                 "E: 8 prior classes with transform= (log / exp / square) and MultivariateNormalPrior (k = 1..4, covariance / "
-                "scale_tril parametrisation) against exact rational linear algebra"
-                % (len(RAW_GRID) + (20 if tier == "quick" else 200), len(list(modules_table())), len(list(prior_modules(rng)))))
+                "scale_tril parametrisation) against exact rational linear algebra; "
+                "F: every module with constrained parameters built so that EACH parameter has its own non-default constraint (classes rotate Interval / "
+                "GreaterThan / LessThan, pairwise different bounds, tensor-valued bounds for ARD / batched parameters): %d classes through their "
+                "<param>_constraint constructor keywords (found by signature inspection; the keyword must land on raw_<param>) and every multi-parameter "
+                "module of B through Module.register_constraint, 2 rotations each; histories of set / tensor set / initialize (local and dotted name from the "
+                "root) / raw initialize / SGD step / out-of-bounds set (chosen inside a sibling's bounds where possible) / sample_from_prior (priors "
+                "registered by name) addressed to ALL parameters, EVERY parameter compared with the multi-parameter model after every op; sample_from_prior "
+                "through the constructors' own <param>_prior closures under the distinct constraints"
+                % (len(RAW_GRID) + (20 if tier == "quick" else 200), len(list(modules_table())), len(list(prior_modules(rng))),
+                   len(list(ctor_table()))))
     out.exhaustive = False
     out.extra["tolerances"] = {"transform/inverse/log_prob vs model": "1e-9 (abs scaled by bounds + rel)",
                                "inverse(transform(raw)) on |raw|<=15": 1e-6, "normalisation": 1e-5}
